@@ -167,7 +167,7 @@ func genSanitizeConsts(repo string) (string, error) {
 		return "", err
 	}
 	var props []string
-	found := false
+	found, badElt := false, false
 	ast.Inspect(f, func(n ast.Node) bool {
 		vs, ok := n.(*ast.ValueSpec)
 		if !ok || len(vs.Names) != 1 || vs.Names[0].Name != "allowedProperties" || len(vs.Values) != 1 {
@@ -178,17 +178,30 @@ func genSanitizeConsts(repo string) (string, error) {
 			return true
 		}
 		found = true
+		// a map literal keyed by the property names (any value type), or a slice/array of them
 		for _, e := range cl.Elts {
 			if kv, ok := e.(*ast.KeyValueExpr); ok {
 				if s, ok := litString(kv.Key); ok {
+					if id, isIdent := kv.Value.(*ast.Ident); isIdent && id.Name == "false" {
+						continue // map[string]bool entry switched off
+					}
 					props = append(props, s)
+				} else {
+					badElt = true
 				}
+			} else if s, ok := litString(e); ok {
+				props = append(props, s)
+			} else {
+				badElt = true
 			}
 		}
 		return false
 	})
 	if !found {
-		return "", fmt.Errorf("allowedProperties map literal not found in css.go")
+		return "", fmt.Errorf("allowedProperties literal (map keyed by property name, or list of names) not found in css.go")
+	}
+	if badElt {
+		return "", fmt.Errorf("allowedProperties holds an entry that is not a string literal")
 	}
 	sort.Strings(props)
 	fmt.Fprintf(&b, "Definition allowed_properties : list (list N) :=\n  %s.\n\n", coqStrList(props))
@@ -307,9 +320,23 @@ func genSanitizeConsts(repo string) (string, error) {
 	if a2.Name == param {
 		secondRaw = 1
 	}
+	// strings.ReplaceAll(x, old, new) or the equivalent strings.Replace(x, old, new, -1)
 	ra := callsNamed(wrap, "strings", "ReplaceAll")
+	if len(ra) == 0 {
+		for _, c := range callsNamed(wrap, "strings", "Replace") {
+			if len(c.Args) == 4 {
+				if u, ok := c.Args[3].(*ast.UnaryExpr); ok && u.Op == token.SUB {
+					if bl, ok := u.X.(*ast.BasicLit); ok && bl.Kind == token.INT && bl.Value == "1" {
+						c2 := *c
+						c2.Args = c.Args[:3]
+						ra = append(ra, &c2)
+					}
+				}
+			}
+		}
+	}
 	if len(ra) != 1 || len(ra[0].Args) != 3 {
-		return "", fmt.Errorf("WrapURL: expected one strings.ReplaceAll")
+		return "", fmt.Errorf("WrapURL: expected one strings.ReplaceAll (or strings.Replace with n = -1)")
 	}
 	ampOld, okA := litString(ra[0].Args[1])
 	ampNew, okB := litString(ra[0].Args[2])
